@@ -450,7 +450,22 @@ fn simplify(o: &str, args: &[&str]) -> Res {
             match o {
                 "nextup" => catch(|| a.next_up(&lim)).map(|v| v.show()),
                 "nextdown" => catch(|| a.next_down(&lim)).map(|v| v.show()),
-                _ => catch(|| a.nearest(&lim)).map(show_approx),
+                _ => catch(|| {
+                    // an exact tie between the two neighbours may go either way (the property
+                    // promises "the closer of the two"): print both neighbours instead of the choice
+                    let r = a.nearest(&lim);
+                    if let dashu_base::Approximation::Inexact(v, s) = &r {
+                        let dn = a.next_down(&lim);
+                        let up = a.next_up(&lim);
+                        let tie = (&a - &dn) == (&up - &a);
+                        let consistent = (*v == dn && *s == Sign::Negative)
+                            || (*v == up && *s == Sign::Positive);
+                        if tie && consistent {
+                            return format!("inexact-tie {} {}", dn.show(), up.show());
+                        }
+                    }
+                    show_approx(r)
+                }),
             }
         }
         "fromf32" => {
@@ -467,6 +482,9 @@ fn simplify(o: &str, args: &[&str]) -> Res {
             // s.fromfloat <mode> d:<base> <signif hex int> d:<exp> d:<precision>
             let mode = arg(args, 0)?;
             let base = p_usize(arg(args, 1)?)?;
+            if arg(args, 2)? == "inf" || arg(args, 2)? == "-inf" {
+                return from_float_inf(mode, base, arg(args, 2)? == "-inf");
+            }
             let signif = p_ibig(arg(args, 2)?)?;
             let exp = p_dec(arg(args, 3)?)? as isize;
             let prec = p_usize(arg(args, 4)?)?;
@@ -487,6 +505,42 @@ fn from_float_g<R: dashu_float::round::ErrorBounds, const B: dashu_int::Word>(
         RBig::simplest_from_float(&f)
     })
     .map(|v| v.map(|r| r.show()).unwrap_or_else(|| "none".into()))
+}
+
+fn from_float_inf_g<R: dashu_float::round::ErrorBounds, const B: dashu_int::Word>(neg: bool) -> Res {
+    catch(|| {
+        let f = if neg {
+            dashu_float::FBig::<R, B>::NEG_INFINITY
+        } else {
+            dashu_float::FBig::<R, B>::INFINITY
+        };
+        RBig::simplest_from_float(&f)
+    })
+    .map(|v| v.map(|r| r.show()).unwrap_or_else(|| "none".into()))
+}
+
+fn from_float_inf(mode: &str, base: usize, neg: bool) -> Res {
+    use dashu_float::round::mode::*;
+    macro_rules! by_base {
+        ($R:ty) => {
+            match base {
+                2 => from_float_inf_g::<$R, 2>(neg),
+                3 => from_float_inf_g::<$R, 3>(neg),
+                10 => from_float_inf_g::<$R, 10>(neg),
+                16 => from_float_inf_g::<$R, 16>(neg),
+                _ => Err("bad-arg base".into()),
+            }
+        };
+    }
+    match mode {
+        "Zero" => by_base!(Zero),
+        "Away" => by_base!(Away),
+        "Up" => by_base!(Up),
+        "Down" => by_base!(Down),
+        "HalfAway" => by_base!(HalfAway),
+        "HalfEven" => by_base!(HalfEven),
+        _ => Err("bad-arg mode".into()),
+    }
 }
 
 fn from_float(mode: &str, base: usize, signif: IBig, exp: isize, prec: usize) -> Res {
